@@ -11,8 +11,10 @@ import (
 func VerifFindingNegativePieceIndex() {
 	verif.Option("panic_is_violation", 1)
 	e := verifSetup(2, 1)
-	pi := verif.Int("piece_index")
-	verif.Assume(pi < 0)
+	pi := -1
+	if verif.Bool("most_negative") {
+		pi = -1 << 63
+	}
 	err := e.t.WritePiece(piecereader.NewBuffer(verif.Bytes("payload", 1)), pi)
 	verif.Assert("negative-index-rejected", err != nil)
 	e.check()
